@@ -37,6 +37,14 @@ type OpDef struct {
 	Name   string
 	Impl   ImplFunc
 	Oracle OracleFunc
+	// ReadBack (optional): values the implementation took from the clock or from crypto/rand (or, for a
+	// validator-style spec, its whole output), read back out of the implementation's output line.
+	// The returned tokens are appended to the argument list of the model line (m) and of the spec
+	// line (s) of the same case (DESIGN §1.3: `now`, `clientChallenge` as explicit arguments).
+	ReadBack func(args []string, implOut string) (m, s []string)
+	// Eval (optional): evaluates the residual expressions (DESIGN §2: `lit | cat | prim name args`) in
+	// a model or spec output line with the Go standard library before it is compared.
+	Eval func(out string) string
 }
 
 type Prop struct {
@@ -300,12 +308,16 @@ func runCases(ctx *Ctx, cases []Case, par int) {
 	type ref struct{ idx int; kind byte }
 	var refs []ref
 	for i, c := range cases {
+		var mx, sx []string
+		if od, ok := ops[c.Op]; ok && od.ReadBack != nil {
+			mx, sx = od.ReadBack(c.MArgs, impl[i].out)
+		}
 		if c.MArgs != nil && !c.NoM {
-			lines = append(lines, "M "+c.Op+" "+strings.Join(c.MArgs, " "))
+			lines = append(lines, "M "+c.Op+" "+strings.Join(append(append([]string{}, c.MArgs...), mx...), " "))
 			refs = append(refs, ref{i, 'M'})
 		}
 		if c.SArgs != nil {
-			lines = append(lines, "S "+c.Op+" "+strings.Join(c.SArgs, " "))
+			lines = append(lines, "S "+c.Op+" "+strings.Join(append(append([]string{}, c.SArgs...), sx...), " "))
 			refs = append(refs, ref{i, 'S'})
 		}
 	}
@@ -317,12 +329,19 @@ func runCases(ctx *Ctx, cases []Case, par int) {
 	model := make([]string, len(cases))
 	spec := make([]string, len(cases))
 	for k, r := range refs {
-		outs[k] = resolveResidual(outs[k]) // `res <expr>`: evaluate stdlib primitives left residual by Lean (residual.go)
+		o := resolveResidual(outs[k]) // `res <expr>`: evaluate stdlib primitives left residual by Lean (residual.go)
+		if od, ok := ops[cases[r.idx].Op]; ok && od.Eval != nil {
+			body, key := splitKey(o)
+			o = od.Eval(body)
+			if key != "" {
+				o += " #" + key
+			}
+		}
 		if r.kind == 'M' {
-			model[r.idx] = outs[k]
+			model[r.idx] = o
 			res.ModelLines++
 		} else {
-			spec[r.idx] = outs[k]
+			spec[r.idx] = o
 			res.SpecLines++
 		}
 	}
